@@ -3,7 +3,9 @@
 Proofs in coq/Props/C09.v. Tie: real posts through bbs.CreateArticle / bbs.GetArticle /
 bbs.LoadGeneralArticles in a scratch BBSHOME; the extracted model is run on the observed state
 before each post plus the observed clock / random draws and must predict the state after; the
-clauses of the property text are evaluated directly on the implementation's own files."""
+clauses of the property text are evaluated directly on the implementation's own files. Bodies include the size
+boundaries of the body and of its lines (gen_size_cases); 'every submitted line' is decided line by line on what
+bbs.GetArticle returns (lines_clause)."""
 import os, re, sys, time, calendar
 sys.path.insert(0, os.path.join(os.path.dirname(os.path.abspath(__file__)), "..", "lib"))
 import vf
@@ -138,19 +140,81 @@ def cstr(b):
     return b if i < 0 else b[:i]
 
 
-def ref_article(sc, u, bi, title, t, lines, name):
+def ref_header(sc, u, bi, title, t):
     usr = sc["users"][u]
     brd = sc["boards"][bi]
     out = b"\xa7\x40\xaa\xcc: " + cstr(usr["id"]) + b" (" + cstr(usr["nick"]) + b") \xac\xdd\xaa\x4f: " + cstr(brd["name"]) + b"\n"
-    out += b"\xbc\xd0\xc3\x44: " + title + b"\n\xae\xc9\xb6\xa1: " + ref_ctime(t) + b"\n\n"
+    return out + b"\xbc\xd0\xc3\x44: " + title + b"\n\xae\xc9\xb6\xa1: " + ref_ctime(t) + b"\n\n"
+
+
+def ref_body(lines):
+    """one stored line (with its line feed) per submitted line, in order — for every number of lines and every line
+    length; only an empty last line is not stored"""
     body = list(lines)
     if body and len(body[-1]) == 0:
         body = body[:-1]
-    for l in body:
-        out += ref_line(l) + b"\n"
-    out += b"\n--\n\xa1\xb0 \xb5\x6f\xab\x48\xaf\xb8: \xb7\x73\xa7\xe5\xbd\xf0\xbd\xf0(ptt2.cc), \xa8\xd3\xa6\xdb: " + IP + b"\n"
-    out += b"\xa1\xb0 \xa4\xe5\xb3\xb9\xba\xf4\xa7\x7d: http://localhost/bbs/" + cstr(brd["name"]) + b"/" + name + b".html\n"
-    return out
+    return [ref_line(l) + b"\n" for l in body]
+
+
+def ref_tail(sc, bi, name):
+    brd = sc["boards"][bi]
+    out = b"\n--\n\xa1\xb0 \xb5\x6f\xab\x48\xaf\xb8: \xb7\x73\xa7\xe5\xbd\xf0\xbd\xf0(ptt2.cc), \xa8\xd3\xa6\xdb: " + IP + b"\n"
+    return out + b"\xa1\xb0 \xa4\xe5\xb3\xb9\xba\xf4\xa7\x7d: http://localhost/bbs/" + cstr(brd["name"]) + b"/" + name + b".html\n"
+
+
+def ref_article(sc, u, bi, title, t, lines, name):
+    return ref_header(sc, u, bi, title, t) + b"".join(ref_body(lines)) + ref_tail(sc, bi, name)
+
+
+MAX_EDIT_LINE = 2048      # ptttype.MAX_EDIT_LINE / WRAPMARGIN: limits of the terminal editor, NOT of a post request
+WRAPMARGIN = 511
+
+
+def size_class(q):
+    """signature of the size class of a body (part of the violation key of the line-by-line clause)"""
+    n = len(q["lines"])
+    longest = max([len(l) for l in q["lines"]] or [0])
+    total = sum(len(l) + 1 for l in q["lines"])
+    if n > MAX_EDIT_LINE:
+        return ":more-than-%d-lines" % MAX_EDIT_LINE
+    if longest > WRAPMARGIN:
+        return ":line-longer-than-%d-bytes" % WRAPMARGIN
+    if total >= 65536:
+        return ":body-of-64KiB-or-more"
+    return ""
+
+
+def abbr(b, n=48):
+    return repr(b) if len(b) <= n else "%r...(%d bytes)" % (b[:n], len(b))
+
+
+def lines_clause(sc, q, r, want_title, name):
+    """'every submitted line': the article returned by bbs.GetArticle for the returned id is walked line by line
+    against the submitted lines (each trimmed / defused by the reference above). Returns None or a description."""
+    if r["fetch"]["err"] != 0:
+        return None                                   # reported by fetch-by-id
+    got = r["fetch"]["content"]
+    head = None
+    for t in range(r["t0"], r["t1"] + 1):
+        h = ref_header(sc, q["u"], q["b"], want_title, t)
+        if got.startswith(h):
+            head = h
+            break
+    if head is None:
+        return None                                   # header differs: reported by file-content
+    want = ref_body(q["lines"])
+    tail = ref_tail(sc, q["b"], name)
+    pos, k = len(head), 0
+    while k < len(want) and got[pos:pos + len(want[k])] == want[k]:
+        pos += len(want[k]); k += 1
+    what = "submitted %d lines (%d to be stored, %d bytes)" % (len(q["lines"]), len(want), sum(len(w) for w in want))
+    if k < len(want):
+        room = len(got) - len(head) - len(tail)
+        return "%s: the article read back by id holds the first %d of them, then instead of line %d (%s) it continues with %s; %d bytes between header and signature, %d expected" % (
+            what, k, k, abbr(want[k]), abbr(got[pos:pos + 60]), room, sum(len(w) for w in want))
+    if got[pos:] != tail:
+        return "%s: all of them are in the article read back by id, but they are followed by %s instead of the signature %s" % (what, abbr(got[pos:pos + 80], 80), abbr(tail, 80))
+    return None
 
 
 def role_ok(sc, u, bi):
@@ -209,7 +273,11 @@ def clauses(sc, q, r):
     got_file = ab_["files"].get(name, b"<missing>")
     wants = [ref_article(sc, q["u"], q["b"], want_title, t, q["lines"], name) for t in range(r["t0"], r["t1"] + 1)]
     if got_file not in wants:
-        bad.append(("file-content", "file %r holds %r, expected %r" % (name, got_file[:400], wants[0][:400])))
+        bad.append(("file-content", "file %r holds %d bytes %s, expected %d bytes %s" % (name, len(got_file), abbr(got_file, 400), len(wants[0]), abbr(wants[0], 400))))
+    # ... every submitted line, whatever their number and length: line by line on what bbs.GetArticle returns
+    d = lines_clause(sc, q, r, want_title, name)
+    if d:
+        bad.append(("body-lines" + size_class(q), d))
     # cached count = index length; author's counter + 1, nobody else's
     if ab_["total"] != len(ab_["dir"]) // 128:
         bad.append(("cached-total", "Shm.Total %d, index holds %d entries" % (ab_["total"], len(ab_["dir"]) // 128)))
@@ -250,7 +318,7 @@ def replay(path):
         print(json.dumps(obj, indent=1)[:4000])
         print("(no replayable request list: this replay names the obligation/correspondence that no longer checks)")
         sys.exit(1)
-    qs = [{"u": x["u"], "b": x["b"], "seed": x["seed"], "cls": bytes(x["cls"]), "title": bytes(x["title"]), "lines": [bytes(l) for l in x["lines"]], "kind": "replay", "edge": x.get("edge", 0)} for x in reqs]
+    qs = [{"u": x["u"], "b": x["b"], "seed": x["seed"], "cls": bytes(x["cls"]), "title": bytes(x["title"]), "lines": [bytes(l) for l in x["lines"]], "kind": "replay", "edge": x.get("edge", 0), "shape": x.get("shape")} for x in reqs]
     impl = vf.build_impl()
     out = vf.run_impl(impl, "C09", ["0", "2"] + [impl_line(q) for q in qs], deadline_ms=20000)
     sc = parse_scenario(out[0])
@@ -360,6 +428,110 @@ def gen_cases(c):
     return groups
 
 
+def gen_size_cases(c, sc):
+    """H. size boundaries of the body and of its lines, through bbs.CreateArticle / bbs.GetArticle: numbers of lines
+    around ptttype.MAX_EDIT_LINE (a limit of the terminal editor that a post request does not have) and far beyond,
+    single lines around 80 / 256 / WRAPMARGIN / 4 KiB / 64 KiB, bodies and whole files whose size crosses 64 KiB
+    (1 MiB in the thorough tier). Every large post is a scenario of its own (boards reset before)."""
+    rng = c.rng
+    thorough = c.tier == "thorough"
+    letters = b"abcdefghijklmnopqrstuvwxyzABCDEFGHIJKLMNOPQRSTUVWXYZ0123456789 -_:()"
+    k = [0]
+
+    def req(cls, title, lines, kind, shape, u=None, b=None):
+        k[0] += 1
+        return {"u": k[0] % 3 if u is None else u, "b": (k[0] // 3) % 2 if b is None else b, "cls": bytes(cls), "title": bytes(title),
+                "lines": [bytes(l) for l in lines], "kind": kind, "shape": shape, "seed": rng.randrange(1, 2**31)}
+
+    def rtitle(n):
+        return bytes(rng.choice(letters) for _ in range(n))
+
+    def numbered(n, tail_empty=False):
+        ls = []
+        for i in range(n):
+            l = b"line-%05d" % i
+            if i % 97 == 3:
+                l += b"   "                                   # trailing blanks
+            if i % 211 == 5:
+                l = b"\x1b[%d;1H" % (i % 24 + 1) + l           # a cursor-movement escape
+            if i % 503 == 7:
+                l += b"\0after-nul"
+            ls.append(l)
+        if tail_empty:
+            ls.append(b"")
+        return ls
+
+    def pattern(n, salt=0):
+        return bytes(33 + ((i * 7 + salt) % 90) for i in range(n))   # printable, no blank, no ESC
+
+    groups = []
+    # H1. number of lines
+    counts = [0, 1, MAX_EDIT_LINE - 1, MAX_EDIT_LINE, MAX_EDIT_LINE + 1, 5000]
+    if thorough:
+        counts += [2, MAX_EDIT_LINE + 2, 4095, 4096, 4097, 10000, 32000, 32001, 65535, 65536, 65537]
+    for n in counts:
+        groups.append([req(b"", rtitle(12), numbered(n), "size-lines", "%d numbered lines" % n)])
+    for n in [MAX_EDIT_LINE, MAX_EDIT_LINE + 1] + ([5000, 32000] if thorough else []):
+        groups.append([req(b"test", rtitle(12), numbered(n, True), "size-lines", "%d numbered lines and an empty last line" % n)])
+    # H2. length of one line (between two short lines; for some lengths also as the only line)
+    widths = [0, 79, 80, 81, 255, 256, WRAPMARGIN, WRAPMARGIN + 1, 4095, 4096, 70000]
+    if thorough:
+        widths += [1, 257, 1023, 1024, 8191, 8192, 32767, 32768, 65535, 65536, 65537, 1 << 20]
+    for n in widths:
+        groups.append([req(b"", rtitle(12), [b"before", pattern(n), b"after"], "size-line-bytes", "a line of %d bytes between two short lines" % n)])
+    for n in [256, 4096, 70000] + ([65536, 1 << 20] if thorough else []):
+        groups.append([req(b"", rtitle(12), [b"before", pattern(n - 40) + b" " * 40, b"after"], "size-line-bytes", "a line of %d bytes, the last 40 of them blanks" % n)])
+        esc = bytearray(pattern(n))
+        for at in range(100, n - 8, 1000):
+            esc[at:at + 6] = b"\x1b[5;5H"
+        groups.append([req(b"test", rtitle(12), [b"before", bytes(esc), b"after"], "size-line-bytes", "a line of %d bytes with a cursor-movement escape every 1000 bytes" % n)])
+    for n in [4096, 70000]:
+        groups.append([req(b"", rtitle(12), [pattern(n, 3)], "size-line-bytes", "a line of %d bytes as the only line" % n)])
+    groups.append([req(b"", rtitle(12), [b"before", b" " * 4096, b"after", b" " * 300], "size-line-bytes", "lines of 4096 and 300 blanks")])
+    # H3. the stored body / the first write (header..signature) / the whole file is 64 KiB - 1, 64 KiB, 64 KiB + 1 bytes
+    def sized(total, width, base):
+        """lines of width bytes (+ line feed) whose stored size is total - base"""
+        room = total - base
+        ls = []
+        i = 0
+        while room > 2 * (width + 1):
+            ls.append(pattern(width, i)); room -= width + 1; i += 1
+        a = room // 2
+        ls += [pattern(a - 1, i), pattern(room - a - 1, i + 1)]
+        assert sum(len(l) + 1 for l in ls) == total - base
+        return ls
+
+    def bases(u, b, title):
+        return len(ref_header(sc, u, b, ref_title(sc, u, b, b"", title), 0)), len(ref_tail(sc, b, b"M.1234567890.A.123"))
+
+    marks = [(65536, 63, "64 KiB")] + ([(1 << 20, 255, "1 MiB")] if thorough else [])
+    for (mark, width, label) in marks:
+        for d in (-1, 0, 1):
+            groups.append([req(b"", rtitle(12), sized(mark + d, width, 0), "size-total", "stored body of %s%+d bytes" % (label, d))])
+        for d in (-1, 0, 1):
+            u, b, title = 2, 0, rtitle(12)
+            h, t = bases(u, b, title)
+            groups.append([req(b"", title, sized(mark + d, width, h + t), "size-total", "article file of %s%+d bytes" % (label, d), u=u, b=b)])
+        u, b, title = 1, 1, rtitle(12)
+        h, t = bases(u, b, title)
+        urllen = len(b"\xa1\xb0 \xa4\xe5\xb3\xb9\xba\xf4\xa7\x7d: http://localhost/bbs/" + cstr(sc["boards"][b]["name"]) + b"/M.1234567890.A.123.html\n")
+        groups.append([req(b"", title, sized(mark, width, h + t - urllen), "size-total", "header + body + signature of exactly %s (the URL line is appended by a second write)" % label, u=u, b=b)])
+    # H4. random large bodies
+    alpha = [0, 27, 27, 32, 32, 32, ord("["), ord(";"), ord("1"), ord("9"), ord("A"), ord("H"), ord("J"), ord("m"), ord("s"), ord("x"), 9, 13, 0x80, 0xa4, 0xfe]
+    for _ in range(40 if thorough else 3):
+        n = rng.randrange(MAX_EDIT_LINE + 1, 4000)
+        bd = [bytes(rng.choice(alpha) for _ in range(rng.randrange(0, 14))) for _ in range(n)]
+        if rng.random() < 0.4:
+            bd.append(b"")
+        groups.append([req(rng.choice([b"", b"test"]), rtitle(rng.randrange(0, 71)), bd, "size-random", "%d random short lines" % len(bd))])
+    # H5. large posts inside a sequence: the later posts leave the large articles alone, the index keeps growing by one
+    groups.append([req(b"", rtitle(12), numbered(MAX_EDIT_LINE + 1), "size-sequence", "%d numbered lines" % (MAX_EDIT_LINE + 1), u=2, b=0),
+                   req(b"test", rtitle(12), [b"short"], "size-sequence", None, u=1, b=0),
+                   req(b"", rtitle(12), [b"before", pattern(70000), b"after"], "size-sequence", "a line of 70000 bytes between two short lines", u=0, b=0),
+                   req(b"", rtitle(12), numbered(3), "size-sequence", None, u=2, b=1)])
+    return groups
+
+
 def impl_line(q):
     return "1|%d %d %d %d|%s|%s|%s|%s" % (q["u"], q["b"], q["seed"], q.get("edge", 0), tk(q["cls"]), tk(q["title"]), enc_lines(q["lines"]), tk(IP))
 
@@ -377,7 +549,10 @@ def model_line(sc, pre, reqs):
 
 
 def describe(q):
-    return "user=%s board=%s class=%r title=%r(len %d) lines=%r" % (USERS[q["u"]], BOARDS[q["b"]], q["cls"], q["title"], len(q["title"]), q["lines"][:6])
+    ls = q["lines"]
+    body = "[" + ", ".join(abbr(l, 40) for l in ls[:6]) + (", ... %d lines, %d bytes in all" % (len(ls), sum(len(l) for l in ls)) if len(ls) > 6 else "") + "]"
+    return "user=%s board=%s class=%r title=%r(len %d) lines=%s%s" % (USERS[q["u"]], BOARDS[q["b"]], q["cls"], q["title"], len(q["title"]), body,
+                                                                   " shape=%s" % q["shape"] if q.get("shape") else "")
 
 
 def main():
@@ -391,7 +566,9 @@ def main():
     model = vf.build_model("C09") if model_ok else None
     vf.ipc_cleanup()
 
+    sc0 = parse_scenario(vf.run_impl(impl, "C09", ["0"])[0])     # users / boards of the fixture: the size cases aim at exact file sizes
     groups = gen_cases(c)
+    groups += gen_size_cases(c, sc0)
     lines, index = ["0"], []
     for gi, g in enumerate(groups):
         lines.append("2")
@@ -401,6 +578,8 @@ def main():
     out = vf.run_impl(impl, "C09", lines, deadline_ms=20000)
 
     sc = parse_scenario(out[0])      # scenario description reported by the driver
+    if sc != sc0:
+        c.broken.append({"kind": "correspondence", "where": "the scenario description changed between two runs of the driver", "theorem": "correspondence scenario", "log": ""})
 
     results = {}
     for (li, gi, qi) in index:
@@ -410,7 +589,7 @@ def main():
     def replay_obj(gi, qi, extra=None):
         cases = ["2"] + [impl_line(q) for q in groups[gi][:qi + 1]]
         o = {"cases": cases, "request": describe(groups[gi][qi]),
-             "requests": [{"u": q["u"], "b": q["b"], "seed": q["seed"], "cls": list(q["cls"]), "title": list(q["title"]), "lines": [list(l) for l in q["lines"]], "edge": q.get("edge", 0)} for q in groups[gi][:qi + 1]]}
+             "requests": [{"u": q["u"], "b": q["b"], "seed": q["seed"], "cls": list(q["cls"]), "title": list(q["title"]), "lines": [list(l) for l in q["lines"]], "edge": q.get("edge", 0), "shape": q.get("shape")} for q in groups[gi][:qi + 1]]}
         if extra:
             o.update(extra)
         return o
@@ -527,12 +706,14 @@ def main():
             c.sample({"request": describe(q), "file": name.decode(), "aid": r["summary"]["aid"].decode("latin-1"), "stored_title": repr(cstr(entry[54:119])),
                       "numposts": "%r -> %r" % (r["pre"]["numposts"], r["post"]["numposts"]), "total": r["post"]["boards"][q["b"]]["total"]})
     c.cov["exhaustive_parts"] = ["every title length 0..70 (exact capacity) x class of 0 and 4 bytes x {SYSOP, moderator, plain verified user}",
-                                 "every proper prefix of the announcement tag as a title x 3 classes x 3 authors"]
+                                 "every proper prefix of the announcement tag as a title x 3 classes x 3 authors",
+                                 "body sizes through bbs.CreateArticle -> bbs.GetArticle: 0, 1, MAX_EDIT_LINE-1, MAX_EDIT_LINE, MAX_EDIT_LINE+1, 5000 lines; one line of 0, 79, 80, 81, 255, 256, "
+                                 "WRAPMARGIN, WRAPMARGIN+1, 4095, 4096, 70000 bytes; stored body / article file of 64 KiB-1, 64 KiB, 64 KiB+1 bytes (thorough: 1 MiB, up to 65537 lines)"]
     c.cov["distribution"]["posts"] = len(index)
     c.cov["distribution"]["scenarios(reset between)"] = len(groups)
     c.cov["distribution"]["clock straddled a second"] = sum(1 for k_ in results if results[k_]["t0"] != results[k_]["t1"])
     vf.ipc_cleanup()
-    c.finish(rule="real posts through bbs.CreateArticle in a scratch BBSHOME; title lengths / tag prefixes enumerated, title bytes, bodies and sequences from PRNG(seed); "
+    c.finish(rule="real posts through bbs.CreateArticle in a scratch BBSHOME; title lengths / tag prefixes / body-size boundaries enumerated, title bytes, bodies and sequences from PRNG(seed); "
                   "a case is non-trivial if it is a distinct (author, board, class, title, body) on which the post succeeded and every clause of the property text held",
              assumptions=["clock readings, math/rand draws and the file modification time are observed inputs of the model (reported by the driver, which seeds math/rand per case)",
                           "Go's fmt / time formatting, os file operations and rename(2) are re-specified in Model/C09.v and exercised by the correspondence, not verified",
